@@ -7,7 +7,7 @@
    not yet covered by a theorem are decided by the implementation <-> specification <->
    hardware differential run only (listed as unproved_forms in the evidence). *)
 From Coq Require Import ZArith Bool List.
-From AxV Require Import Bits Outcome Codes Iced State Rt Mem Trace Exec ExecP FrameTac FrameP ByteStore RegFile RegsP ISA CodeSem IsaP OperandP RmP MovP StoreP DivP Examples.
+From AxV Require Import Bits Outcome Codes Iced State Rt Mem Trace Exec ExecP FrameTac FrameP ByteStore RegFile RegsP ISA CodeSem IsaP OperandP RmP MovP StoreP Alu32P MovxP DivP Div32P Div16P Examples.
 From AxG Require Import Flags Regs Operand Helpers Dispatch Frame I_div I_idiv I_mov.
 Local Open Scope Z_scope.
 
@@ -37,6 +37,48 @@ Theorem C06_div_rm64 : forall c i s,
   | IFault _ => False
   end.
 Proof. exact div_rm64_refines. Qed.
+
+(* DIV r/m32 and IDIV r/m32, complete: the signed form sign-extends its divisor (the 64-bit form does not) *)
+Theorem C06_div_rm32 : forall c i s,
+  wf_regs s -> Inv (mem s) -> i_op_count i = 1 -> rm32_shape i 0 -> i_code i = C_Div_rm32 ->
+  match isa_exec (SDiv 32) i s with
+  | IDone s' _ => instr_div_rm32 c i s = (Ok tt, s')
+  | IFault FDivide => instr_div_rm32 c i s = (Err EDivZero, s)
+  | IFault FMem => exists e, instr_div_rm32 c i s = (Err e, s)
+  | IFault _ => False
+  end.
+Proof. exact div_rm32_refines. Qed.
+
+(* DIV r/m16 (DX:AX / r/m16) and DIV r/m8 (AX / r/m8 -> AL, AH) *)
+Theorem C06_div_rm16 : forall c i s,
+  wf_regs s -> Inv (mem s) -> i_op_count i = 1 -> rm16_shape i 0 -> i_code i = C_Div_rm16 ->
+  match isa_exec (SDiv 16) i s with
+  | IDone s' _ => instr_div_rm16 c i s = (Ok tt, s')
+  | IFault FDivide => instr_div_rm16 c i s = (Err EDivZero, s)
+  | IFault FMem => exists e, instr_div_rm16 c i s = (Err e, s)
+  | IFault _ => False
+  end.
+Proof. exact div_rm16_refines. Qed.
+
+Theorem C06_div_rm8 : forall c i s,
+  wf_regs s -> Inv (mem s) -> i_op_count i = 1 -> rm8_shape i 0 -> i_code i = C_Div_rm8 ->
+  match isa_exec (SDiv 8) i s with
+  | IDone s' _ => instr_div_rm8 c i s = (Ok tt, s')
+  | IFault FDivide => instr_div_rm8 c i s = (Err EDivZero, s)
+  | IFault FMem => exists e, instr_div_rm8 c i s = (Err e, s)
+  | IFault _ => False
+  end.
+Proof. exact div_rm8_refines. Qed.
+
+Theorem C06_idiv_rm32 : forall c i s,
+  wf_regs s -> Inv (mem s) -> i_op_count i = 1 -> rm32_shape i 0 -> i_code i = C_Idiv_rm32 ->
+  match isa_exec (SIdiv 32) i s with
+  | IDone s' _ => instr_idiv_rm32 c i s = (Ok tt, s')
+  | IFault FDivide => instr_idiv_rm32 c i s = (Err EDivZero, s)
+  | IFault FMem => exists e, instr_idiv_rm32 c i s = (Err e, s)
+  | IFault _ => False
+  end.
+Proof. exact idiv_rm32_refines. Qed.
 
 (* IDIV r/m64, for divisors with a clear sign bit (for the others see
    C01_idiv64_negative_divisor_refuted: known finding KF-C01-idiv64-divisor) *)
@@ -111,3 +153,7 @@ Print Assumptions C06_idiv_rm64_partial.
 Print Assumptions C06_mov_r64_m64.
 Print Assumptions C06_store_to_write_only_refuted.
 Print Assumptions C06_mov_m64_r64_exact.
+Print Assumptions C06_div_rm32.
+Print Assumptions C06_idiv_rm32.
+Print Assumptions C06_div_rm16.
+Print Assumptions C06_div_rm8.
